@@ -316,7 +316,9 @@ structure Verdict where
 
 def inclusion (decls : List Decl) (a b : Ty) (depth : Nat := 5) : Verdict :=
   let r := repsOf decls a b
-  let (xs, cut) := enumExact decls r depth a
+  let (xs0, cut) := enumExact decls r depth a
+  -- only values that the reference itself accepts as exact values of A may serve as witnesses
+  let xs := xs0.filter fun v => memR decls true 40 a v == some true
   let res := xs.map fun v => (v, memR decls false 40 b v)
   let bad := res.find? fun p => p.2 == some false
   let undecided := res.any fun p => p.2 == none
